@@ -448,6 +448,16 @@ func runPipes(c *Case) *Obs {
 						}
 					case "sum":
 						res = []any{"val", []int{iterator.Reduce(itZ, 0, func(a, x int) int { return a + x })}}
+					case "equal":
+						its := []iterator.Iterator[int]{itZ}
+						for _, q := range rd[1].([]any) {
+							its = append(its, buildIterZ(q.(map[string]any), r, 0))
+						}
+						eq := 0
+						if iterator.Equal(its...) {
+							eq = 1
+						}
+						res = []any{"val", []int{eq}}
 					case "equalself":
 						other := buildIterZ(pipe, r, 1000)
 						eq := 0
